@@ -751,8 +751,8 @@ def matcher_flags(prog):
     anchor in rstr_find), PREV (tested next to `r > s` before the look-behind), and the
     RE_ -> REG_ mapping of rset_find.  Missing ones are None."""
     out = {"NOTBOL": None, "PREV": None, "map": {}}
-    f = prog.func("rstr_find", file="rstr.c")
-    for n in f.walk():
+    nodes_ = [n for f in prog.funcs.values() if f.file == "rstr.c" for n in f.walk()]
+    for n in nodes_:
         if n["k"] == "bin" and n["op"] == "&&":
             l, r = strip_casts(n["l"]), strip_casts(n["r"])
             if l["k"] == "member" and l["field"] == "lbeg" and r["k"] == "bin" and r["op"] == "&" \
@@ -763,8 +763,7 @@ def matcher_flags(prog):
             if l["k"] == "bin" and l["op"] in (">", "!=") and r["k"] == "bin" and r["op"] == "&" and \
                     cval(r["r"]) is not None and strip_casts(r["l"])["k"] == "ref":
                 out["PREV"] = cval(r["r"])
-    g = prog.func("rset_find", file="rset.c")
-    for st in g.walk():
+    for st in [n for g in prog.funcs.values() if g.file == "rset.c" for n in g.walk()]:
         if st["k"] == "if" and st["c"]["k"] == "bin" and st["c"]["op"] == "&" and cval(st["c"]["r"]) is not None:
             for n, lv, op, rhs in stores(st["t"]):
                 if op == "|=" and cval(rhs) is not None:
